@@ -414,7 +414,13 @@ func (g *gen) buildStore(flavour int) (shares []int) {
 		if len(members) < 3 {
 			members = append(members, phantomID)
 		}
-		top = g.bigSet(members, 2)
+		// (limit 2 with 4 or more members sends the real SetStaticSetMembers into an endless recursion:
+		// subsetsNumber = maxStaticSetMembers-1 = 1, perSubset = len(members); that is C15's ground)
+		max := 2
+		if len(members) > 3 {
+			max = 3
+		}
+		top = g.bigSet(members, max)
 	case 2: // hand-made: both members and mergeSets in one blob
 		sub := g.put(&sblob{kind: "set", refs: []int{file}}).id
 		top = g.put(&sblob{kind: "set", refs: subset(r, leaves, 1), subs: []int{sub}, extra: nil}).id
